@@ -91,6 +91,31 @@ CLAIMED = {
              "characters at chunk boundaries and code points congruent to ';' / '=' modulo 256, wire strings and maps.",
         technique="Coq proof (list / fold induction) + model/implementation correspondence",
         ref="DESIGN.md section 6, C19"),
+    "C09": dict(
+        text="Kernel-checked theorems: the pseudo-record written for EDNS data equals, byte for byte, an RFC 6891 encoder written from "
+             "the RFC (root owner, TYPE 41, CLASS = payload size, TTL = ext-rcode / version / flags, option triples) for every OPT value "
+             "and named response code; the response code is split 4 + 8 bits and recombined on parsing (swept over all named codes x "
+             "256 versions); the written message parses back to the same EDNS data (C02 theorem); the OPT record is lifted from any "
+             "position of the additional section. Tied to /repo by serialise/parse runs and reference-encoded messages with the OPT at "
+             "every index plus third-party dig-style vectors, with an independent envelope walker as oracle.",
+        technique="Coq proof (equality with an RFC spec encoder; sweeps for the TTL bit layout) + model/implementation correspondence",
+        ref="DESIGN.md section 6, C09"),
+    "C12": dict(
+        text="PARTIAL. Kernel-checked theorems cover the observers' decision logic in the model: parsing is total, parsed names are "
+             "1..63-byte labels within 255 bytes, and the fallible text conversions return Ok or Err - Err exactly on invalid UTF-8. "
+             "The lossy rendering of Display/Debug is not modelled, so the 'never panics' claim for formatting rests on the OBSERVE "
+             "slice: every public observer applied under catch_unwind to every part of parser-accepted packets built around invalid "
+             "UTF-8, NUL, dots, backslashes, empty and maximal strings.",
+        technique="Coq proof of the conversion decision logic (thin) + implementation run of all observers under catch_unwind with model-predicted error counts",
+        ref="DESIGN.md section 6, C12"),
+    "C16": dict(
+        text="Kernel-checked theorems: into_owned (modelled as a field-wise rebuild) is the identity and preserves the serialisation "
+             "(short by nature); records that compare equal feed the hasher the same tokens (both use name, class, rdata); "
+             "InstanceInformation's hash input is independent of the enumeration order of its sets (Permutation -> equal sorted "
+             "lists). Tied to /repo by cloning / owning every part of parsed packets (printed form, ==, recorded hasher byte stream, "
+             "bytes of a packet reassembled from the copies) and by instance values built with different insertion orders and set histories.",
+        technique="Coq proof (Permutation / sorting uniqueness; structural identity) + implementation checks with a recording Hasher",
+        ref="DESIGN.md section 6, C16"),
 }
 
 PENDING_REASON = "not claimed yet: model, theorems and correspondence slice for this property are still being built (see DESIGN.md section 10)"
